@@ -129,6 +129,8 @@ def register(M):
                 it = ex.materialize(it)
                 M.assoc_insert(ex, c, (), c.v, ex.field_of(it, None, 0, '?'), ex.field_of(it, None, 1, '?'), 'Option<?>')
             return c.v
+        if h == 'BTreeMap':
+            return M.btree_from(ex, items, dty)
         if h == 'Result' and T.type_name_hint((generic_args(dty or '') or ['?'])[0])[0] == 'Vec':
             # Result<Vec<T>, E>: the first Err short-circuits
             oks = []
